@@ -26,3 +26,41 @@ Proof.
   assert (off = zlen s) by lia. subst off. f_equal.
   rewrite zfirstn_all by lia. unfold zskipn, zlen. rewrite Nat2Z.id, skipn_all. now rewrite app_nil_r.
 Qed.
+
+(* ---- from a variant to the altered sequence: alter_seq -> Seq.alter -> Seq.replace_substr / insert_substr ---- *)
+From VV Require Import Model.Vcf Model.Mave Model.PyStr.
+
+Lemma sempty_dna_k d : sempty (string_of_dna d) = is_nil d.
+Proof. destruct d; reflexivity. Qed.
+Lemma slen_dna_k d : slen (string_of_dna d) = zlen d.
+Proof. unfold slen, zlen. f_equal. induction d as [|x d IH]; cbn; [reflexivity|now rewrite IH]. Qed.
+
+Lemma mk_range_valid_k a b r : mk_range a b = Ok r -> range_valid r = true /\ rs r = a /\ re r = b.
+Proof.
+  unfold mk_range. destruct ((0 <=? a) && (a <=? b)) eqn:E; [|discriminate]. intros H. injection H as <-. unfold range_valid. cbn [rs re]. auto.
+Qed.
+
+Theorem k_alter_seq_eq q v : v_ref v <> [] \/ v_alt v <> [] ->
+  k_alter_seq q v = match alter q v with Ok s => Ok (mkSeq (s_start q) s) | Err e => Err e end.
+Proof.
+  intros Hne. unfold k_alter_seq, alter, kd_var_ref_range, kd_var_ref_end, kd_var_ref_len, kd_get_end, kd_clamp_non_negative, var_ref_end, get_end, v_ref_s.
+  cbn [bind]. rewrite slen_dna_k.
+  destruct (mk_range (v_pos v) (v_pos v + Z.max 0 (zlen (v_ref v) - 1))) as [r|e] eqn:Er; cbn [bind]; [|reflexivity].
+  unfold kd_var_is_insertion, kd_var_type, v_ref_s, v_alt_s. rewrite !sempty_dna_k.
+  destruct (v_ref v) as [|x ref] eqn:Eref; cbn [is_nil negb bind].
+  - (* insertion *)
+    destruct (v_alt v) as [|y alt] eqn:Ealt; [destruct Hne as [H|H]; now elim H|]. cbn [is_nil negb bind vtype_eqb].
+    apply mk_range_valid_k in Er. destruct Er as (Hv & Hs & He). cbn [zlen length Z.of_nat Z.sub Z.max] in He.
+    unfold k_seq_alter. cbn [negb orb]. unfold rlen. replace (re r - rs r + 1 =? 1) with true by (symmetry; apply Z.eqb_eq; lia).
+    cbn [bind]. unfold k_seq_insert_substr, k_seq_get_rel_pos. cbn [bind]. rewrite k_dna_insert_substr_eq.
+    destruct (insert_substr (s_bases q) (rs r - s_start q) (y :: alt)); reflexivity.
+  - (* substitution / deletion *)
+    assert (Hty : forall b : bool, vtype_eqb (if b then VSub else VDel) VIns = false) by (intros [|]; reflexivity).
+    rewrite Hty. unfold k_seq_alter. cbn [negb orb bind].
+    unfold k_seq_replace_substr, k_seq_get_rel_range, kd_range_offset. cbn [bind].
+    change (rs r + - s_start q) with (rs r - s_start q). change (re r + - s_start q) with (re r - s_start q).
+    destruct (mk_range (rs r - s_start q) (re r - s_start q)) as [rr|e] eqn:Err; cbn [bind]; [|reflexivity].
+    apply mk_range_valid_k in Err. destruct Err as (Hv & _ & _).
+    rewrite (k_dna_replace_substr_eq (s_bases q) rr (v_alt v) Hv).
+    destruct (replace_substr (s_bases q) (rs rr) (re rr) (v_alt v)); reflexivity.
+Qed.
